@@ -2,7 +2,7 @@
 increment slicing, and reachability of the scan primitive's integer-kind rule."""
 import ast
 from ..core import RuleResult, Finding, AnalysisError, dotted, src, norm_construct
-from ..expr import inline_straight, returns_of, dump, subst
+from ..expr import inline_straight, returns_of, dump, subst, rv
 from .. import paths
 from .c12 import ki_check
 
@@ -110,9 +110,10 @@ def rule_dir_comp(repo):
                             'right product (left=False)' % (src(left) if left is not None else 'default True'), node=c))
     # returned dictionary of integrate: each increment is a [.., 1:, :] slice
     rets = returns_of(f.node)
-    if len(rets) != 1 or not isinstance(rets[0].value, ast.Dict):
+    v0 = _dict_literal(f.node, rets[0]) if len(rets) == 1 else None
+    if v0 is None:
         raise AnalysisError('C16.DIR: integrate no longer returns a dict literal')
-    d = {k.value: v for k, v in zip(rets[0].value.keys, rets[0].value.values) if isinstance(k, ast.Constant)}
+    d = {k.value: v for k, v in zip(v0.keys, v0.values) if isinstance(k, ast.Constant)}
     for key in ('Dp', 'Dv', 'Dr', 'Dt', 'w'):
         v = d.get(key)
         ok = False
@@ -126,10 +127,11 @@ def rule_dir_comp(repo):
     # predict composition roles
     p = repo.func(IMU, CLS + '.predict')
     rets = returns_of(p.node)
-    if len(rets) != 1 or not isinstance(rets[0].value, ast.Dict):
+    v0 = _dict_literal(p.node, rets[0]) if len(rets) == 1 else None
+    if v0 is None:
         raise AnalysisError('C16.COMP: predict no longer returns a dict literal')
     pin = inline_straight(p.node, upto=rets[0])
-    d = {k.value: src(pin.value(v)).replace(' ', '').replace('"', "'") for k, v in zip(rets[0].value.keys, rets[0].value.values)
+    d = {k.value: src(pin.value(v)).replace(' ', '').replace('"', "'") for k, v in zip(v0.keys, v0.values)
          if isinstance(k, ast.Constant)}
     want = {'rot': ["init_state['rot']*integrate['Dr']", "init_state['rot']@integrate['Dr']"],
             'vel': ["init_state['vel']+init_state['rot']*integrate['Dv']", "init_state['vel']+init_state['rot']@integrate['Dv']"],
@@ -143,6 +145,17 @@ def rule_dir_comp(repo):
             res.add(Finding('C16.COMP', p, 'predict[%s] is `%s`; the documented composition is `%s` (initial rotation on the left)' % (key, got, forms[0]),
                             construct='comp ' + key))
     return res
+
+
+def _dict_literal(fnode, ret):
+    """the dict literal returned (as written), following one level of `name = {...}; return name`"""
+    v = ret.value
+    if isinstance(v, ast.Name):
+        name = v.id
+        for n in ast.walk(fnode):
+            if isinstance(n, ast.Assign) and any(isinstance(t, ast.Name) and t.id == name for t in n.targets):
+                v = n.value
+    return v if isinstance(v, ast.Dict) else None
 
 
 def _same_sum(a, b):
